@@ -93,7 +93,7 @@ class C08(CommCase):
         return comm.gen_comm_plan(rng, tier=tier, symmetric_only=False,
                                   mixed_dtypes=rng.random() < 0.25)
 
-    def evaluate(self, plan: dict[str, Any], tapes: Any = None) -> Outcome:
+    def evaluate_all(self, plan: dict[str, Any], tapes: Any = None) -> Outcome:
         from simkfac import comm
 
         oc = Outcome()
@@ -111,9 +111,13 @@ class C08(CommCase):
         comm.check(plan, b, 'plain', bad, oc.stats)
         comm.compare_modes(plan, a, b, 'C08.bucketed_vs_plain', ['C08'],
                            bad, oc.stats)
-        oc.violations = [v for v in oc.violations if self.pid in v['props']]
         oc.tapes = {'A': a['decisions'], 'B': b['decisions']}
         oc.nontrivial = list(oc.shapes)
+        return oc
+
+    def evaluate(self, plan: dict[str, Any], tapes: Any = None) -> Outcome:
+        oc = self.evaluate_all(plan, tapes)
+        oc.violations = [v for v in oc.violations if self.pid in v['props']]
         return oc
 
 
@@ -398,5 +402,150 @@ class C20(BaseCase):
                 _set(['clock', 'read_cost'], 0.0)]
 
 
+COMPONENTS_NEOX = {
+    'real': ['kfac/gpt_neox/* (preconditioner, layer, assignment, mpu, '
+             'modules)', 'kfac/base_preconditioner.py, kfac/layers/eigen.py, '
+             'kfac/distributed.py', 'torch autograd and linear algebra',
+             'torch.save/torch.load serialization'],
+    'stub': ['torch.distributed / torch.futures.Future (SimDist, SimFuture)',
+             'deepspeed.pipe.PipelineModule and '
+             'PipeModelDataParallelTopology (re-implemented)',
+             'Megatron ColumnParallelLinear / RowParallelLinear (stub '
+             'modules with the real sharded arithmetic, communicating '
+             'through SimDist from autograd functions)',
+             'pipeline engine (each stage trains on stage-local synthetic '
+             'activations; inter-stage p2p not simulated)',
+             'file system under factor_checkpoint_dir (in-memory, snapshot '
+             'per committed checkpoint)', 'optimizer (seeded weight '
+             'schedule keeps sharded/unsharded runs in lock-step)'],
+}
+
+
+class NeoxCase(BaseCase):
+    components = COMPONENTS_NEOX
+    assumptions = ASSUME_TRAIN + [
+        'C11/C18 are statements about kfac given the DeepSpeed/Megatron '
+        'stubs', 'a checkpoint counts as complete only after every rank '
+        'returned from state_dict() (outer-framework barrier)']
+    n_cases = {'quick': 160, 'thorough': 3000}
+    chunk = {'quick': 5, 'thorough': 20}
+    restarts = 0.0
+
+    def gen(self, rng: random.Random, tier: str) -> dict[str, Any]:
+        from simkfac import neox
+
+        return neox.gen_neox_plan(rng, tier, restarts=self.restarts)
+
+    def legal(self, plan: dict[str, Any]) -> bool:
+        ops = plan['ops']
+        return any(o['op'] == 'train' for o in ops) and \
+            ops[-1]['op'] != 'restart' and \
+            plan['hidden'] % plan['model'] == 0 and \
+            plan['inner'] % plan['model'] == 0
+
+    def brief(self, plan: dict[str, Any]) -> Any:
+        return {k: v for k, v in plan.items()
+                if k not in ('model_seed', 'data_seed')}
+
+    def shrinkers(self) -> list[Callable[[dict[str, Any]], bool]]:
+        def dec(key: str, lo: int) -> Callable[[dict[str, Any]], bool]:
+            def f(p: dict[str, Any]) -> bool:
+                if p[key] <= lo:
+                    return False
+                p[key] = lo
+                return True
+            return f
+
+        def small_dims(p: dict[str, Any]) -> bool:
+            h = p['model'] if p['model'] > 1 else 2
+            if p['hidden'] == h and p['inner'] == h:
+                return False
+            p['hidden'] = p['inner'] = h
+            return True
+
+        from simkfac.cases import _const_hp
+
+        return [dec('pipe', 1), dec('data', 1), dec('blocks', 1), small_dims,
+                dec('acc', 1),
+                _set(['kfac', 'bucket_cap_mb'], 0),
+                _set(['kfac', 'symmetry_aware'], False),
+                _set(['kfac', 'ckpt_dir'], None),
+                _set(['sim', 'poison'], False),
+                _set(['sim', 'policy'], 'round_robin'),
+                _set(['read_factors'], False),
+                ] + [_const_hp(n) for n in (
+                    'factor_update_steps', 'inv_update_steps', 'damping',
+                    'factor_decay', 'kl_clip', 'lr')]
+
+    def run_and_analyse(self, plan: dict[str, Any], oc: Outcome,
+                        tapes: Any = None) -> Any:
+        from simkfac import neox, oracle_neox
+
+        res = neox.execute(plan, tapes)
+        oc.absorb_result(res)
+        rep = oracle_neox.analyse(plan, res)
+        oc.stats.update(rep.stats)
+        oc.harness_errors.extend(rep.harness_errors)
+        oc.nontrivial.extend(repr(k) for k in sorted(
+            rep.nontrivial_keys, key=repr))
+        return res, rep, [inc['decisions'] for inc in res['incs']]
+
+    def evaluate_all(self, plan: dict[str, Any],
+                     tapes: Any = None) -> Outcome:
+        oc = Outcome()
+        res, rep, tp = self.run_and_analyse(plan, oc, tapes)
+        oc.tapes = tp
+        oc.violations = list(rep.violations)
+        return oc
+
+    def evaluate(self, plan: dict[str, Any], tapes: Any = None) -> Outcome:
+        oc = self.evaluate_all(plan, tapes)
+        oc.violations = [v for v in oc.violations if self.pid in v['props']]
+        return oc
+
+
+class C11(NeoxCase):
+    pid = 'C11'
+    expected_probes = ['neox_gradient_comparisons',
+                       'neox_factor_comparisons', 'nu_lt_1', 'nu_eq_1',
+                       'inflight_poison']
+    rule = ('pipe x data x model topologies (world <= 8, thorough 16) of '
+            'column-/row-parallel blocks with/without bias, clipping '
+            'active/inactive/None, bucketed or not; shards of the gradient '
+            'after every step are reassembled and compared with a float64 '
+            'reference of the UNSHARDED layer fed the reassembled '
+            'activations (factors via all-rank state_dict()); replicas and '
+            'replicated parameters compared; distinct = distinct (topology, '
+            'bias, clipped?, refresh?, factor-step?, bucketed) tuples')
+
+
+class C18(NeoxCase):
+    pid = 'C18'
+    level = 'fault_enumeration'
+    restarts = 0.9
+    expected_probes = ['restarts', 'saves_checked',
+                       'saved_factor_comparisons', 'checkpoint_saved',
+                       'directory_checkpoints_checked',
+                       'job_crash_and_restart']
+    rule = ('W-neox histories with all-rank state_dict() checkpoints '
+            '(in-memory and factor_checkpoint_dir on a simulated file '
+            'system), crashes at boundaries and mid-operation, restart into '
+            'fresh objects; at save every rank\'s state is compared with '
+            'what each layer\'s inverse worker holds (and files with it); '
+            'after restart gradients are compared with the restarted '
+            'reference')
+
+    def gen(self, rng: random.Random, tier: str) -> dict[str, Any]:
+        while True:
+            plan = super().gen(rng, tier)
+            if any(o['op'] == 'save' for o in plan['ops']):
+                break
+        # the rank-local clip scale (known finding) is C11/C07 business;
+        # keep most checkpoint histories free of it
+        if (plan['model'] > 1 or plan['pipe'] > 1) and rng.random() < 0.8:
+            plan['hps']['kl_clip'] = {'c': 1e6}
+        return plan
+
+
 def registry() -> dict[str, Any]:
-    return {c.pid: c() for c in (C06, C08, C12, C14, C20)}
+    return {c.pid: c() for c in (C06, C08, C11, C12, C14, C18, C20)}
